@@ -26,7 +26,7 @@ from harness import vcore, vscen, vskel
 from vlib import core
 
 PROPS = ["Props/C01.v"]
-BAD = ("unsigned", "edited", "wrong_signer", "sig_nibble")
+BAD = ("unsigned", "edited", "wrong_signer", "sig_nibble", "foreign_type")
 VARIANTS = ["honest", "honest", "expired", "unsigned", "edited", "wrong_signer", "sig_nibble"]
 
 
@@ -84,6 +84,19 @@ def sweep_cases(fj):
             f2 = copy.deepcopy(fj)
             old, new = vscen.edit_at(f2, p)
             cases.append(({"path": list(p), "old": old, "new": new, "kind": "leaf"}, f2))
+        # ... and an edit that only ADDS a code point no byte encoding carries (an unpaired surrogate, which JSON text
+        # can spell as \udc00): the content changed, so the signature must not hold — bytes that silently drop it would
+        for p in paths:
+            if p[0] != "signed":
+                continue
+            f2 = copy.deepcopy(fj)
+            o = f2
+            for k in p[:-1]:
+                o = o[k]
+            if isinstance(o[p[-1]], str) and p[-1] not in ("_type", "expires", "keyid", "keytype", "scheme", "public"):
+                old = o[p[-1]]
+                o[p[-1]] = old + "\udc00"
+                cases.append(({"path": list(p), "old": old, "new": o[p[-1]], "kind": "leaf"}, f2))
         return cases
     data = json.loads(base64.b64decode(fj["payload"]))
     enc = lambda d, **kw: base64.b64encode(json.dumps(d, **kw).encode()).decode()
@@ -204,6 +217,16 @@ def run(ctx):
         g, _ = vcore.run_scenarios(ctx, [o for o in GPG_SETS if not o.get("sweep")], 22, use_gpg=True, model=False)
     recs.extend(g)
     model = vcore.run_model(recs)
+    # unpaired-surrogate edits: the implementation refuses the file while LOADING (its validators evaluate the signable
+    # bytes), the model loads it and fails at the signature stage with the same encoding error — the same verdict
+    # (rejected) in a different phase; the implementation-side oracle below still demands the rejection
+    phase_only = 0
+    for r in recs:
+        sw = r.get("sweep")
+        if sw and isinstance(sw.get("new"), str) and sw["new"].endswith("\udc00") and r.get("diff") and \
+                str(r["diff"]).startswith("load:") and "load_err" in r["impl"][0]:
+            r["diff"] = None
+            phase_only += 1
 
     gaps = 0      # (the gpg other_headers gap of the first model version is closed: Meta.v gpg_verify asks the oracle about signature:other_headers)
     # property oracle on the implementation side
@@ -279,7 +302,7 @@ def run(ctx):
                                            "the single-leaf edit sweep of accepted honest layouts. compared with the model: verdict class, "
                                            "summary link, inspection log. non-trivial = carries a layout_* / key-set / boundary tag or is a "
                                            "sweep case; distinct = different (root file, link dir, keys, clock)",
-                                   "model_gap": {"count": gaps},
+                                   "model_gap": {"count": gaps, "unpaired_surrogate_rejected_at_load_vs_at_signature_stage": phase_only},
                                    "command_line_key_sets": cli_cov,
                                    "process_history": {"cases": hist_n, "violations": len(hist_bad)},
                                    "single_leaf_sweep": sweep_stats, "oracle_violations": len(bad), "root_format": fmt,
@@ -385,6 +408,24 @@ def history_stream(ctx):
                     n += 1
                     if v3 != v1:
                         problems.append("%s: the same file verifies as %s first and as %s after other calls" % (fmt, v1, v3))
+            # (c) the optional step_name argument (the name given to the summary link) does not relax the gate
+            for what, signer, keys_fn in (("unsigned", None, lambda: {k1.keyid: copy.deepcopy(k1.pub)}),
+                                          ("signed by another key", k2, lambda: {k1.keyid: copy.deepcopy(k1.pub)}),
+                                          ("empty key set", k1, lambda: {})):
+                layc = Layout(steps=[], inspect=[], keys={}, expires="2035-01-01T00:00:00Z", readme="c")
+                mdc = vscen.make_md(layc, dsse)
+                if signer is not None:
+                    mdc.create_signature(signer.signer)
+                pc = os.path.join(wd, "c.layout")
+                mdc.dump(pc)
+                try:
+                    vl.in_toto_verify(Metadata.load(pc), keys_fn(), link_dir_path=wd, step_name="final-product")
+                    vc = "accept"
+                except Exception as e:  # noqa
+                    vc = type(e).__name__
+                n += 1
+                if vc == "accept":
+                    problems.append("%s: a layout that is %s is accepted when in_toto_verify is called with step_name set" % (fmt, what))
             # (b) key id X was used with other key material earlier in this process
             for other in (k2, k3):
                 # a key id this process has never seen (key ids are free-form labels of the key store)
